@@ -146,10 +146,10 @@ Theorem example_network_Z : c01_example_statement.
 Proof. exact c01_example_proof. Qed.
 Print Assumptions example_network_Z.
 
-(* tie to the current /repo (read from the source with ast on every run): the f-strings of _prepare_ode_content, in source
-   order - the very pieces Model/OdeText concatenates (reaction terms " - k[l]*..." / " + k[l]*...", modifier terms
+(* tie to the current /repo (read from the source with ast on every run): the f-strings of _prepare_ode_content (constant text, {} for every interpolated expression; log messages left out),
+   in source order, followed by the separators of its join calls - the very pieces Model/OdeText concatenates (reaction terms " - k[l]*..." / " + k[l]*...", modifier terms
    " + (fact) * ...", thermal terms with blanks around the first star in the right-hand side and a bare star in the Jacobian,
    the wrapping of the temperature row, "lhs = rhs;") *)
-Theorem live_ode_text_pieces : ode_content_fstrings = (["Overwirte the rate of: `{reac}` with {value}"; "{rate_sym}[{idx}] = {value};"; "y[IDX_{x.alias}]"; " - {rate_sym}[{rl}]*{rsym_mul}"; " + {rate_sym}[{rl}]*{rsym_mul}"; " - {'*'.join([f'{rate_sym}[{rl}]', *rsymcopy])}"; "{rate_sym}[{rl}]"; " + {'*'.join([f'{rate_sym}[{rl}]', *rsymcopy])}"; "{rate_sym}[{rl}]"; "y[IDX_{d.alias}]"; " + ({fact}) * {depsym_mul}"; " + {'*'.join([f'({fact})', *depsymcopy])}"; "({fact})"; " + {hrate_sym}[{hidx}] * {rsym_mul}"; " + {'*'.join([f'{hrate_sym}[{hidx}]', *rsymcopy])}"; "{hrate_sym}[{hidx}]"; " - {crate_sym}[{cidx}] * {rsym_mul}"; " - {'*'.join([f'{crate_sym}[{cidx}]', *rsymcopy])}"; "{crate_sym}[{cidx}]"; "ydot[IDX_{x.alias}]"; "(gamma - 1.0) * ( {rhs[n_spec]} ) / kerg / npar"; "(gamma - 1.0) * ( {jacrhs[n_spec * n_eqns + si]} ) / kerg / npar"; "{l} = {r};"; "{elem}"])%string.
+Theorem live_ode_text_pieces : ode_content_fstrings = (["{}[{}] = {};"; "y[IDX_{}]"; " - {}[{}]*{}"; " + {}[{}]*{}"; " - {}"; "{}[{}]"; " + {}"; "{}[{}]"; "y[IDX_{}]"; " + ({}) * {}"; " + {}"; "({})"; " + {}[{}] * {}"; " + {}"; "{}[{}]"; " - {}[{}] * {}"; " - {}"; "{}[{}]"; "ydot[IDX_{}]"; "(gamma - 1.0) * ( {} ) / kerg / npar"; "(gamma - 1.0) * ( {} ) / kerg / npar"; "{} = {};"; "{}"; "join:*"; "join:*"; "join:*"; "join:*"; "join:*"; "join:*"; "join:*"; "join:*"; "join:*"; "join:*"])%string.
 Proof. reflexivity. Qed.
 Print Assumptions live_ode_text_pieces.
